@@ -167,12 +167,50 @@ class BitEval:
                     return Bits([ZERO] * kk + a.bits[: w - kk], a.signed)
                 fill = a.bits[w - 1] if a.signed else ZERO
                 return Bits(a.bits[kk:] + [fill] * kk, a.signed)
+            if op in ("==", "!="):
+                # exact when the two sides differ in at most one non-constant bit position:
+                # (a == b)  <=>  that bit of a^b is 0, provided every other bit of a^b is the constant 0
+                self._same_width(a, b, op)
+                d = [bxor(x, y) for x, y in zip(a.bits, b.bits)]
+                if any(bit == ONE for bit in d):
+                    return Bits.const(0 if op == "==" else 1, 1)
+                var = [bit for bit in d if bit != ZERO]
+                if not var:
+                    return Bits.const(1 if op == "==" else 0, 1)
+                if len(var) == 1:
+                    ne = var[0]
+                    return Bits([ne if op == "!=" else bxor(ne, ONE)], False)
+                raise NotAffine("comparison of values differing in several non-constant bits")
             if op == "+":
                 self._same_width(a, b, op)
                 if all(x == ZERO or y == ZERO for x, y in zip(a.bits, b.bits)):
                     return Bits([bxor(x, y) for x, y in zip(a.bits, b.bits)], a.signed)
                 raise NotAffine("addition with overlapping supports")
             raise NotAffine(f"binary {op}")
+        if k == "If":
+            cnd = self.ev(n["c"], env)
+            if cnd.width != 1:
+                raise NotAffine("non-boolean condition")
+            if "f" not in n:
+                raise NotAffine("if without else in value position")
+            t = self.ev(n["t"], env)
+            f = self.ev(n["f"], env)
+            self._same_width(t, f, "if")
+            cb = cnd.bits[0]
+            if cb == ONE:
+                return t
+            if cb == ZERO:
+                return f
+            out = []
+            for x, y in zip(t.bits, f.bits):
+                d = bxor(x, y)
+                if d == ZERO:
+                    out.append(x)
+                elif d == ONE:
+                    out.append(bxor(y, cb))      # c ? y^1 : y  =  y ^ c
+                else:
+                    raise NotAffine("branches differ by a non-constant bit under a non-constant condition")
+            return Bits(out, t.signed, t.kind)
         if k == "Cast":
             a = self.ev(n["e"], env)
             w, s = ty_info(n["ty"])
@@ -317,3 +355,103 @@ def poly_eval(n, env, symfn=None):
         if s is not None:
             return s
     raise NotAffine(f"expression {k} outside the polynomial domain")
+
+
+# ---------------------------------------------------------------------------- loop-nest index maps
+
+class LoopNest:
+    """Symbolic walk of a function body made of lets and (nested) `for` loops whose innermost statement is a single
+    element move `dst[..] = src[..]` (through iterator element bindings, derefs or explicit indexing).
+
+    Each loop introduces one index symbol with a half-open range:
+        for (i, e) in X.iter()/iter_mut().enumerate()   i in [0, |X|), e = X[i]
+        for e in X.iter()/iter_mut()                     hidden i in [0, |X|), e = X[i]
+        for i in a..b                                    i in [a, b)
+    Places evaluate to (root local lid, [index Poly per dimension]).  The result is independent of the loop order,
+    of which side uses iterators or indexing, and of subexpressions hoisted into lets."""
+
+    def __init__(self, fn, symfn=None):
+        self.fn = fn
+        self.symfn = symfn
+        self.env = {}        # lid -> Poly
+        self.elems = {}      # lid -> (root lid, [Poly])
+        self.ranges = {}     # symbol -> (lo Poly, hi Poly | ("len", root lid, depth))
+        self.moves = []      # (dst place, src place, node)
+        self.n = 0
+
+    def fresh(self):
+        self.n += 1
+        return f"k{self.n}"
+
+    def place(self, e):
+        e = core.strip(e)
+        k = e.get("k")
+        if k == "Path" and e.get("res") == "local":
+            if e["lid"] in self.elems:
+                return self.elems[e["lid"]]
+            return (e["lid"], [])
+        if k == "Unary" and e.get("op") in ("*", "deref"):
+            return self.place(e["e"])
+        if k in ("AddrOf",):
+            return self.place(e["e"])
+        if k == "Index":
+            root, idx = self.place(e["l"])
+            return (root, idx + [poly_eval(e["r"], self.env, self.symfn)])
+        if k == "MethodCall" and e["m"] in ("iter", "iter_mut", "into_iter", "as_slice", "as_mut_slice", "as_ref", "as_mut", "deref", "deref_mut") and not e["args"]:
+            return self.place(e["recv"])
+        raise NotAffine(f"place expression {k} outside the loop-nest model")
+
+    def run(self, body):
+        b = core.strip(body)
+        if b.get("k") == "Block":
+            for st in b["b"]["stmts"]:
+                if st["k"] == "Let":
+                    if st["pat"].get("k") == "Binding" and "init" in st:
+                        try:
+                            self.env[st["pat"]["lid"]] = poly_eval(st["init"], self.env, self.symfn)
+                        except NotAffine:
+                            pass      # not an index quantity (the buffer itself, ...)
+                else:
+                    self.run(st["e"])
+            if "expr" in b["b"]:
+                self.run(b["b"]["expr"])
+            return
+        fl = core.as_for(b)
+        if fl is not None:
+            pat, it, inner = fl[0], core.strip(fl[1]), fl[2]
+            if it.get("k") == "Struct" and it.get("def") == "core::ops::range::Range":
+                flds = {f["f"]: f["e"] for f in it["fields"]}
+                if pat.get("k") != "Binding":
+                    raise NotAffine("range loop pattern")
+                s = self.fresh()
+                self.env[pat["lid"]] = Poly.sym(s)
+                self.ranges[s] = (poly_eval(flds["start"], self.env, self.symfn), poly_eval(flds["end"], self.env, self.symfn))
+            else:
+                enum = False
+                if it.get("k") == "MethodCall" and it["m"] == "enumerate":
+                    enum = True
+                    it = core.strip(it["recv"])
+                root, idx = self.place(it)
+                s = self.fresh()
+                self.ranges[s] = (Poly.const(0), ("len", root, len(idx)))
+                elem = (root, idx + [Poly.sym(s)])
+                if enum:
+                    if not (pat.get("k") == "Tuple" and len(pat["pats"]) == 2 and all(q.get("k") == "Binding" for q in pat["pats"])):
+                        raise NotAffine("enumerate loop pattern")
+                    self.env[pat["pats"][0]["lid"]] = Poly.sym(s)
+                    self.elems[pat["pats"][1]["lid"]] = elem
+                else:
+                    q = pat
+                    while q.get("k") in ("Ref", "Deref") and isinstance(q.get("p"), dict):
+                        q = q["p"]
+                    if q.get("k") != "Binding":
+                        raise NotAffine("loop pattern")
+                    self.elems[q["lid"]] = elem
+            self.run(inner)
+            return
+        if b.get("k") == "Assign":
+            self.moves.append((self.place(b["l"]), self.place(b["r"]), b))
+            return
+        if b.get("k") in ("Match", "MethodCall", "Call", "Ret", "Path", "Lit", "Tup") or core.as_try(b) is not None:
+            return      # I/O calls and the result expression are not part of the index map
+        raise NotAffine(f"statement {b.get('k')} outside the loop-nest model")
